@@ -21,6 +21,7 @@ import (
 	"os/exec"
 	"path/filepath"
 	"reflect"
+	"regexp"
 	"strings"
 	"sync"
 	"sync/atomic"
@@ -278,7 +279,7 @@ func main() {
 	run := ev.Start("C04")
 	defer run.Guard()
 	run.Rule("codec level: case = (generation, reader constructor, decode program or generated type, input); inputs = every string of up to N tokens over the ROR2, JSON and query-string delimiter alphabets, every truncation and sampled single edits of valid encodings of generated values in all five wire formats, 50 hostile untyped Go values; " +
-		"HTTP level: case = (mounting, generated method, mutated request or mutated response), see the http.* counters. A panic recovered from library code, a 5xx / stack trace / dropped connection for any request against resources that always succeed, an invocation for a request whose body or key does not parse, or a panic in the caller's goroutine is a violation; a stalled worker is re-run alone before it counts. " +
+		"thorough tier: Go's native coverage-guided fuzzing engine on the same decode programs and on the generated decoders (7 targets x 60 s); HTTP level: case = (mounting, generated method, mutated request or mutated response), see the http.* counters. A panic recovered from library code, a 5xx / stack trace / dropped connection for any request against resources that always succeed, an invocation for a request whose body or key does not parse, or a panic in the caller's goroutine is a violation; a stalled worker is re-run alone before it counts. " +
 		"distinct = distinct (format, program or type, outcome class) for the codec level + (method kind, mutation class, status class) for HTTP")
 	run.Assume("readers whose inner reader is not consumed by the callback are documented as undefined and are not exercised", "cyclic Go values are not fed to the interface reader", "generated decoders, HTTP level and Reader-interface programs: both generations (root through bindings written by its own generator)")
 	rng := rand.New(rand.NewSource(run.Seed))
@@ -470,6 +471,9 @@ func main() {
 			run.Distinct("program|" + f + "|" + p)
 		}
 	}
+	if run.Thorough() {
+		coverageGuided(run)
+	}
 	gen2.HTTPLevel(run, rng)
 	gen1.HTTPLevel(run, rand.New(rand.NewSource(run.Seed+4)))
 	run.Require("v2.http.server.requests", 1000)
@@ -541,4 +545,56 @@ func oneChild(file string) {
 			gen2.Probe(&s2, parts[3], parts[1])
 		}
 	}
+}
+
+var fuzzFailRe = regexp.MustCompile(`panic in (.*?) (?:reader|decoder) \((v2|root)\)(?: program (\S+)| of (\S+), (\S+),) on (.*): (.*) at (\S+)`)
+var fuzzExecsRe = regexp.MustCompile(`execs: (\d+)`)
+var fuzzNewRe = regexp.MustCompile(`new interesting: (\d+)`)
+
+// coverageGuided runs Go's native fuzzing engine on the decode programs and the generated decoders (thorough tier): the
+// monitors are the same panic catchers, the engine mutates the seeds under coverage feedback from the library packages.
+func coverageGuided(run *ev.Run) {
+	targets := []struct{ pkg, name string }{
+		{"./props/c04/fuzz/", "FuzzJSON"}, {"./props/c04/fuzz/", "FuzzROR2"}, {"./props/c04/fuzz/", "FuzzQueryValue"}, {"./props/c04/fuzz/", "FuzzQueryString"},
+		{"./props/c04/fuzzgen/", "FuzzTypedJSON"}, {"./props/c04/fuzzgen/", "FuzzTypedROR2"}, {"./props/c04/fuzzgen/", "FuzzTypedQuery"},
+	}
+	for _, tg := range targets {
+		cmd := exec.Command("go", "test", "-tags", "verif", "-run", "^$", "-fuzz", "^"+tg.name+"$", "-fuzztime", "60s", tg.pkg)
+		cmd.Env = append(os.Environ(), "GOFLAGS=-mod=mod")
+		out, err := cmd.CombinedOutput()
+		text := string(out)
+		execs, interesting := 0, 0
+		for _, m := range fuzzExecsRe.FindAllStringSubmatch(text, -1) {
+			fmt.Sscan(m[1], &execs)
+		}
+		for _, m := range fuzzNewRe.FindAllStringSubmatch(text, -1) {
+			fmt.Sscan(m[1], &interesting)
+		}
+		run.Eval(execs)
+		run.Count("fuzz."+tg.name+".execs", execs)
+		run.Count("fuzz."+tg.name+".interesting_inputs", interesting)
+		switch {
+		case err == nil:
+			run.Distinct("fuzz|" + tg.name)
+		case strings.Contains(text, "panic in "):
+			m := fuzzFailRe.FindStringSubmatch(text)
+			sig := "fuzz/" + tg.name + "/panic"
+			detail := map[string]any{"target": tg.name, "output": trunc(lastLines(text, 25))}
+			if m != nil {
+				sig = fmt.Sprintf("%s/codec/panic/%s/%s", m[2], m[1], lastSegment(m[8]))
+				detail["input"], detail["panic"], detail["frame"] = m[6], m[7], m[8]
+			}
+			run.Violation(sig, detail)
+		default:
+			run.Inconclusive("fuzz target " + tg.name + " did not run: " + trunc(lastLines(text, 12)))
+		}
+	}
+}
+
+func lastLines(s string, n int) string {
+	lines := strings.Split(strings.TrimSpace(s), "\n")
+	if len(lines) > n {
+		lines = lines[len(lines)-n:]
+	}
+	return strings.Join(lines, "\n")
 }
